@@ -599,7 +599,9 @@ clientInput(void *data)
 #ifdef LIBVNCSERVER_WITH_WEBSOCKETS
             do {
                 rfbProcessClientMessage(cl);
-            } while (webSocketsHasDataInBuffer(cl));
+                /* a client closed by this message is not served any further,
+                   whatever its WebSocket decoder still holds */
+            } while (cl->state != RFB_SHUTDOWN && webSocketsHasDataInBuffer(cl));
 #else
             rfbProcessClientMessage(cl);
 #endif
